@@ -584,6 +584,11 @@ func (mq *MessageQueue) sendMessage() {
 		// Convert want lists to a Bitswap Message
 		message, onSent := mq.extractOutgoingMessage(supportsHave)
 		if message.Empty() {
+			// Everything in the message may have been cancelled while it was
+			// built; wants that did not fit into it are still pending.
+			if mq.pendingWorkCount() > 0 {
+				mq.signalWorkReady()
+			}
 			return
 		}
 
